@@ -2,6 +2,7 @@ package main
 
 import (
 	"fmt"
+	"go/types"
 	"sort"
 	"strings"
 
@@ -368,4 +369,11 @@ func (c *FC) onCycle(in ssa.Instruction) bool {
 	fi := c.p.info(c.fn)
 	b := in.Block()
 	return fi.reach[b.Index][b.Index]
+}
+
+func sortStrings(s []string) { sort.Strings(s) }
+
+func fieldName(fa *ssa.FieldAddr) string {
+	st := fa.X.Type().Underlying().(*types.Pointer).Elem().Underlying().(*types.Struct)
+	return st.Field(fa.Field).Name()
 }
